@@ -1123,7 +1123,13 @@ impl Harness for H {
             let len = if rng.chance(3, 4) { *rng.pick(&sizes) } else { rng.below(3 * chunk.min(64) + 2) as u32 };
             Val { tag, len }
         };
-        let key = |rng: &mut Rng| rng.below(nkeys as u64) as u8;
+        // concurrent runs concentrate on one hot key: windows between two
+        // clients only exist when they touch the same key
+        let hot: Option<u8> = if concurrent && rng.chance(2, 3) { Some(rng.below(nkeys as u64) as u8) } else { None };
+        let key = |rng: &mut Rng| match hot {
+            Some(h) if rng.chance(2, 3) => h,
+            _ => rng.below(nkeys as u64) as u8,
+        };
         let toksel = |rng: &mut Rng, k: u8| match rng.weighted(&[50, 20, 10, 8, 8]) {
             0 => TokSel::Latest(k),
             1 => TokSel::Older(k),
@@ -1133,7 +1139,7 @@ impl Harness for H {
         };
         let mut gen_op = |rng: &mut Rng, conc: bool| -> GOp {
             let w: [u32; 11] = if conc {
-                [30, 8, 22, 5, 5, 8, 0, 8, 8, 0, 0]
+                [30, 8, 22, 5, 5, 12, 2, 8, 8, 0, 0]
             } else {
                 [24, 7, 22, 6, 6, 8, 4, 7, 8, 6, 2]
             };
@@ -1219,7 +1225,11 @@ impl Harness for H {
         };
         let (prefix, clients) = if concurrent {
             let np = rng.range(1, 6);
-            let prefix: Vec<GOp> = (0..np).map(|_| gen_op(&mut rng, false)).collect();
+            let mut prefix: Vec<GOp> = (0..np).map(|_| gen_op(&mut rng, false)).collect();
+            if rng.bool() {
+                // the race starts on a cold metadata cache
+                prefix.push(GOp::Recache);
+            }
             let nc = rng.range(2, 3);
             let clients = (0..nc)
                 .map(|_| (0..rng.range(1, 4)).map(|_| gen_op(&mut rng, true)).collect())
@@ -1265,6 +1275,7 @@ impl Harness for H {
         let disk = InMemory::new();
         let store = SimStore::new(sim.clone(), disk);
         store.set_list_page(case.list_page);
+        store.set_response_delay(simcore::store::seeded_response_delay(case.seed));
         let hist: Arc<Mutex<Hist>> = Arc::new(Mutex::new(Vec::new()));
         let mut ex = Exec {
             store: self.build_store(case, &store),
@@ -1303,8 +1314,11 @@ impl Harness for H {
             sim.set_park(false);
             ex.split_lists = false;
         }
-        // final quiescent observation: get, head and listing agree per key
+        // final quiescent observation: get, head and listing agree per key.
+        // The listing comes first as well: a read can heal a stale cached
+        // document (missing payload -> refresh) that a listing would still report.
         let mut memf = ClientMem::default();
+        block(ex.run_op(9, &mut memf, &GOp::List { prefix: None, offset: None }));
         for k in 0..KEYS.len() as u8 {
             block(ex.run_op(9, &mut memf, &GOp::Get { key: k, head: false, range: None, if_match: None, if_none_match: None, mod_since: None, unmod_since: None }));
             block(ex.run_op(9, &mut memf, &GOp::Get { key: k, head: true, range: None, if_match: None, if_none_match: None, mod_since: None, unmod_since: None }));
@@ -1470,9 +1484,15 @@ impl H {
             }
         }
         let lines: Vec<String> = hist.iter().filter(|e| e.client != 9).map(describe).collect();
+        let backend = if std::env::var("SIM_TRACE").is_ok() {
+            let t: Vec<String> = sim.trace().iter().map(|e| format!("#{} t{} {:?} {} {}", e.seq, e.task, e.kind, e.path, e.verdict)).collect();
+            format!("\nbackend trace:\n{}", t.join("\n"))
+        } else {
+            String::new()
+        };
         Err(violation!(
             class,
-            "history is not linearizable against the reference object store; first inexplicable event: {culprit}; history: {}",
+            "history is not linearizable against the reference object store; first inexplicable event: {culprit}; history: {}{backend}",
             lines.join(" | ")
         ))
     }
